@@ -1337,6 +1337,9 @@ func (t *Table) UnmergeCells(row, col int) error {
 		return fmt.Errorf("单元格没有合并")
 	}
 
+	// 垂直合并的延续单元格按网格列对应：各行的物理单元格数可以不同（其它行有水平合并）
+	gridStart := t.gridStartOf(row, col)
+
 	// 检查是否有水平合并
 	if cell.Properties.GridSpan != nil {
 		// 获取合并的列数
@@ -1370,22 +1373,25 @@ func (t *Table) UnmergeCells(row, col int) error {
 
 		// 查找并恢复被合并的单元格
 		for i := row + 1; i < len(t.Rows); i++ {
-			if col < len(t.Rows[i].Cells) {
-				otherCell := &t.Rows[i].Cells[col]
-				if otherCell.Properties != nil && otherCell.Properties.VMerge != nil {
-					// 缺省的val表示continue（Word写出的<w:vMerge/>）
-					if otherCell.Properties.VMerge.Val != "restart" {
-						// 恢复单元格内容
-						otherCell.Properties.VMerge = nil
-						if len(otherCell.Paragraphs) == 0 {
-							otherCell.Paragraphs = []Paragraph{{}}
-						}
-					} else {
-						break
-					}
-				} else {
+			below := -1
+			for k := range t.Rows[i].Cells {
+				if t.gridStartOf(i, k) == gridStart {
+					below = k
 					break
 				}
+			}
+			if below < 0 {
+				break
+			}
+			otherCell := &t.Rows[i].Cells[below]
+			// 缺省的val表示continue（Word写出的<w:vMerge/>）
+			if otherCell.Properties == nil || otherCell.Properties.VMerge == nil || otherCell.Properties.VMerge.Val == "restart" {
+				break
+			}
+			// 恢复单元格内容
+			otherCell.Properties.VMerge = nil
+			if len(otherCell.Paragraphs) == 0 {
+				otherCell.Paragraphs = []Paragraph{{}}
 			}
 		}
 	}
